@@ -259,10 +259,28 @@ structure Soft where
   opts : String
 deriving DecidableEq, Repr
 
-/-- `software_manager.software[name]` after the installs: the LAST installed instance of that name
-(`self.software[software.name] = software` overwrites; the guard on `_software_class_to_name_map` never fires). -/
+/-- `software_manager.software[name]`: the most recently registered live instance of that name. -/
 def registered (insts : List Soft) (name : String) : Option Soft :=
   insts.reverse.find? (·.name = name)
+
+/-- `SoftwareManager.install` of one instance (code after `fix: SoftwareManager.install created a second live instance …`):
+`if software.name in self.software: self.uninstall(software.name)` removes the installed namesake from `node.services` /
+`node.applications`, its request route, the port table and the class map; then the new instance is appended
+(`node.services[software.uuid] = software`, `self.software[software.name] = software`). The bare-reinstall refusal
+(`software_class in _software_class_to_name_map and software_config is None`) cannot fire in the loader: system software is
+installed once per class, `from_config` always passes a configuration mapping, and `DatabaseService.install` asks for the
+FTP client only when none is registered (`installServices`). -/
+def installOne (insts : List Soft) (s : Soft) : List Soft :=
+  insts.filter (fun x => !decide (x.name = s.name)) ++ [s]
+
+/-- the live instances after a sequence of `install` calls on a fresh node -/
+def installedAfter (reqs : List Soft) : List Soft := reqs.foldl installOne []
+
+/-- SPECIFICATION side: of several requests for one software name the last one counts (it carries the options the scenario
+file configures for software the node type already brings along); listed in the order of those last requests. -/
+def lastRequests : List Soft → List Soft
+  | [] => []
+  | s :: rest => if rest.any (fun x => decide (x.name = s.name)) then lastRequests rest else s :: lastRequests rest
 
 def liveCount (insts : List Soft) (name : String) : Nat := (insts.filter (·.name = name)).length
 
@@ -376,7 +394,7 @@ def buildNode (n : NodeCfg) : Except Err NodeInv :=
       dns := n.dns, gateway := n.gateway, nics := nics, acls := acls,
       routes := if net then n.routes.map routeOf else [],
       defaultRoute := if net then n.defaultRoute else none,
-      software := softInventory (installAll n.kind n),
+      software := softInventory (installedAfter (installAll n.kind n)),
       users := if n.kind = .switch then [] else buildUsers n,
       folders := if net then [] else buildFolders n }
   match n.kind with
@@ -479,9 +497,10 @@ do not say what the keys mean; every shipped file uses 2, 3, … so that key = N
 def declaredNics (m : Assoc Nat IfCfg) : List Nic := (sortByKey m).map fun e => nicOf e.2
 
 /-- every piece of software the node is asked to carry (pre-installed system software, the configured services and
-applications, the FTP client a database service brings along), once, with the options of its own entry. -/
+applications, the FTP client a database service brings along): ONE live instance per name, with the options of the last
+entry that names it (a configured entry for pre-installed system software replaces the bare pre-installed instance). -/
 def declaredSoftware (k : Kind) (n : NodeCfg) : List SoftInv :=
-  (installAll k n).map fun s => { name := s.name, isApp := s.isApp, opts := s.opts, live := 1 }
+  (lastRequests (installAll k n)).map fun s => { name := s.name, isApp := s.isApp, opts := s.opts, live := 1 }
 
 def declaredUsers (n : NodeCfg) : List UserInv :=
   adminUser :: n.users.map fun u => { name := u.name, password := u.password, admin := u.admin.getD false }
